@@ -263,7 +263,7 @@ Definition grid_eqb (a b : geo) : bool := Nat.eqb (g_nfun a) (g_nfun b) && Nat.e
    vars(left): an attribute only the right operand has is never looked at *)
 Definition set_grad (g : geo) (gr : option ggrad) : geo :=
   mkGeo (g_cls g) (g_pdim g) (g_nfun g) (g_conv g) (g_map g) (g_f2p g) gr (g_vid g).
-Definition inst_grad_class (k : gclass) : bool := match k with KStep | KMapped => true | _ => false end.
+Definition inst_grad_class (k : gclass) : bool := match k with KStep | KMapped | KCont1D => true | _ => false end.
 Definition grad_only_left (a b : geo) : bool :=
   inst_grad_class (g_cls a) && has_grad a && negb (has_grad b) && fields_eqb (set_grad a None) b.
 Definition grad_only_right (a b : geo) : bool :=
